@@ -168,8 +168,15 @@ func ruleP18Sgr(p *Prog, r *Report) {
 		}
 		nThemes++
 		theme := fmt.Sprintf("%s@%s", fnBase(ctor), p.instrPos(c))
-		for _, k := range []string{"reset", "underlined", "bold"} {
-			check(theme+":"+k, fl[k], p.instrPos(c))
+		// every string field a theme carries is a sequence the styler may emit — except the three
+		// that are only parts of the colour sequences checked below. (A field that is added later,
+		// say a screen-control sequence that only the coloured themes have, is held to the same
+		// standard: what a theme emits and the unstyled output lacks must be removable.)
+		parts := map[string]bool{"foregroundPrefix": true, "backgroundPrefix": true, "colourSuffix": true}
+		for _, k := range sortedKeys(fl) {
+			if !parts[k] {
+				check(theme+":"+k, fl[k], p.instrPos(c))
+			}
 		}
 		seen := map[string]bool{}
 		for _, code := range codes {
